@@ -9,6 +9,7 @@ import common, l3, jsonx
 PID = "C15"
 PAIRS = {"eager": "base", "eagern": "n", "eagerw": "w"}
 GROUP = re.compile(r"IXSCAN\s*\{([^}]*)\}")
+VARREF = re.compile(r"^\$\$[A-Za-z_][A-Za-z0-9_]*\.(.+)$")
 
 
 def plan_tokens(s):
@@ -82,6 +83,20 @@ def judge(byc, res):
                         bind(kin, kout, "key at " + l3.abstract_path(path[:-1]))
             if ev[0] == 'leaf':
                 path, a, b = ev[1], ev[2], ev[3]
+                mv = VARREF.match(a[1]) if a[0] == 'str' else None
+                if mv and l3.in_zone(path) and mv.group(1) in re_.cfam and b is not None and b[0] == 'str' and reflab.get(path) == "ref" and not (
+                        path[2] == "documents" and jsonx.get(re_.inp, ("attr", path[1], "insert")) is None):
+                    # '$$ROOT.field', '$$CURRENT.field', '$$this.field': the field name must go (the absence test below sees it), and if the
+                    # tail of what replaces it is a pseudonym path it is the pseudonym of that field
+                    name = mv.group(1)
+                    planted.update(name.split("."))
+                    if b == a:
+                        l3.add_violation(res, "'$$variable.field' reference kept at %s flags=%s" % (l3.abstract_path(path), flags), re_, {"ref": a[1]})
+                    else:
+                        tail = b[1].lstrip("$").split(".")[-len(name.split(".")):]
+                        if all(cfg.pseudo_re().match(x) for x in tail):
+                            bind(name, ".".join(tail), "variable reference at " + l3.abstract_path(path))
+                    continue
                 if a[0] == 'str' and a[1].startswith("$") and l3.in_zone(path) and a[1].lstrip("$") in re_.cfam and b is not None and b[0] == 'str' and reflab.get(path) == "ref" and not (
                         path[2] == "documents" and jsonx.get(re_.inp, ("attr", path[1], "insert")) is None):
                     planted.update(a[1].lstrip("$").split("."))
@@ -152,7 +167,9 @@ def judge(byc, res):
 
 def cfgs(tier):
     cs = [l3.Cfg("base"), l3.Cfg("eager", eager=True), l3.Cfg("n", num=True, bool=True), l3.Cfg("eagern", eager=True, num=True, bool=True),
-          l3.Cfg("w", ns=True), l3.Cfg("eagerw", eager=True, ns=True)]
+          l3.Cfg("w", ns=True),
+          # several --redactFieldNames values: the one that matches is not the last one given
+          l3.Cfg("eagerw", eager=True, ns=True, eager_ns=[l3.EAGER_NS, "zzNoSuchDb.zzNoSuchColl"])]
     return cs
 
 
